@@ -16,6 +16,7 @@ import (
 	"path/filepath"
 	"runtime"
 	"runtime/debug"
+	"runtime/pprof"
 	"sort"
 	"strconv"
 	"strings"
@@ -184,6 +185,9 @@ func (r *Reporter) Guard(prop string, c any, f func()) (ok bool) {
 		if e := recover(); e != nil {
 			st := debug.Stack()
 			site := PanicSite(st)
+			if os.Getenv("VERIF_SHOW_STACK") != "" {
+				fmt.Fprintf(os.Stderr, "panic: %v\n%s\n", e, repoFrames(st))
+			}
 			r.Violation(prop+":panic@"+site, c, fmt.Sprintf("panic: %v at %s", e, site))
 			ok = false
 		}
@@ -384,6 +388,12 @@ func replayMain(c *Check, path string) int {
 }
 
 func workerMain(c *Check, tier string) {
+	if p := os.Getenv("VERIF_CPUPROFILE"); p != "" {
+		if f, err := os.Create(p); err == nil {
+			pprof.StartCPUProfile(f)
+			defer pprof.StopCPUProfile()
+		}
+	}
 	mem := c.MemLimit
 	if mem == 0 {
 		mem = 8 << 30
@@ -858,4 +868,16 @@ func samplesOrEmpty(s []json.RawMessage) []json.RawMessage {
 		return []json.RawMessage{}
 	}
 	return s
+}
+
+// repoFrames keeps the go-text/typesetting frames (function and file:line) of a stack trace.
+func repoFrames(st []byte) string {
+	lines := strings.Split(string(st), "\n")
+	var b strings.Builder
+	for i, l := range lines {
+		if strings.HasPrefix(l, "github.com/go-text/typesetting/") && i+1 < len(lines) {
+			b.WriteString("  " + strings.TrimPrefix(l, "github.com/go-text/typesetting/") + "\n     " + strings.TrimSpace(lines[i+1]) + "\n")
+		}
+	}
+	return b.String()
 }
